@@ -19,6 +19,8 @@ RENAMES = ['-Dmalloc=hxw_malloc', '-Dcalloc=hxw_calloc', '-Drealloc=hxw_realloc'
 VARIANTS = {
     # name: (compiler, flags for everything, extra flags for libhtp objects only, link flags)
     'asan': ('gcc', ['-O1', '-g', '-fno-omit-frame-pointer', '-fsanitize=address,undefined', '-fno-sanitize-recover=all'], [], []),
+    # asan + an edge-coverage callback in the library objects: feedback for the hostile mutator (AFL-style bitmap, see hx_cost.c)
+    'asancov': ('gcc', ['-O1', '-g', '-fno-omit-frame-pointer', '-fsanitize=address,undefined', '-fno-sanitize-recover=all', '-DHX_EDGECOV'], ['-fsanitize-coverage=trace-pc'], []),
     'plain': ('gcc', ['-O2', '-g'], [], []),
     'cov': ('gcc', ['-O1', '-g', '-DHX_COV'], ['-fsanitize-coverage=trace-pc', '-fno-builtin-memcpy', '-fno-builtin-memmove',
                                    '-fno-builtin-memchr', '-fno-builtin-memset', '-fno-builtin-memcmp'],
